@@ -148,6 +148,37 @@ def gen_hub_spec(rng):
     return {"nodes": nodes, "deps": deps}
 
 
+def gen_litchain_spec(rng):
+    """Dependencies chained through literals that are ALSO call arguments (so they are not contracted away):
+    call a -dep-> L1 -dep-> L2 ... ; every literal is an argument of some call, so `b = f(L2)` depends on `a` through two
+    literals.  Calls before and beside the chain keep the workers busy."""
+    nodes, deps = [], []
+
+    def call(args=()):
+        i = len(nodes)
+        nodes.append({"id": i, "kind": "call", "args": [{"n": a} for a in args], "kwargs": [], "scope": []})
+        return i
+
+    def lit():
+        i = len(nodes)
+        nodes.append({"id": i, "kind": "lit", "scope": []})
+        return i
+
+    heads = [call() for _ in range(rng.choice([1, 1, 2]))]
+    k = rng.choice([2, 2, 3])
+    prev = None
+    for j in range(k):
+        L = lit()
+        for p in (heads if prev is None else [prev]):
+            deps.append([p, L])
+        if rng.random() < 0.8 or j == k - 1:
+            call([L] + ([rng.choice(heads)] if rng.random() < 0.2 else []))
+        prev = L
+    for _ in range(rng.choice([0, 1])):
+        call()
+    return {"nodes": nodes, "deps": deps}
+
+
 def build(spec, rec, failing=None):
     """Returns (plan, {id: Node}, raised) built through Plan.call / Plan.lit / Plan.add_dependency."""
     failing = failing or {}
